@@ -710,7 +710,10 @@ func TestVerifC02Directed(t *testing.T) {
 		if err != nil {
 			st.Violation(t, "Chrome_120 does not build: %v", err)
 		}
-		h := vfParseClientHello(uc.HandshakeState.Hello.Raw)
+		h := vf02CheckHello(st, t, uc.HandshakeState.Hello.Raw, vf02Ctx{What: "parrot HelloChrome_120 (base of the directed ECH case)", ECHPayload: -1})
+		if h == nil {
+			continue
+		}
 		ec := h.ECH()
 		if ec == nil {
 			st.Violation(t, "Chrome_120 hello carries no ECH extension")
